@@ -79,7 +79,8 @@ def run_logger(ctx, binary, data, seed, chunk, pause_ms, n, paced=False, pre=b""
             f.write(pre)
     cfg = os.path.join(d, "cfg.json")
     with open(cfg, "w") as f:
-        json.dump({"log_events": False, "message_log_directory": logdir}, f)
+        # every second run has the event log switched on (its own directory): it must make no difference
+        json.dump({"log_events": n % 2 == 1, "event_log_directory": os.path.join(d, "events"), "message_log_directory": logdir}, f)
     env = dict(os.environ)
     if pause_ms:
         env["VERIF_PAUSE_rec.write"] = str(pause_ms)
